@@ -120,7 +120,7 @@ void run(Ctx &ctx) {
     std::vector<Str> corpus = norm_corpus(ctx.secondary ? 0 : ctx.quick() ? 0 : 1);
     // shapes whose normal form needs a segment the library has to ADD (the guarding "." in front of an empty first segment or of a first
     // segment with a colon): that text must be the URI's own as well, not a constant shared between URIs
-    for (auto x : { "/.//b", "s:/a/..//b", ".//c", "/%2E//x", "./a:b", "x/../c:d/e", "s:/.//", "a/..//b/c" }) corpus.push_back(x);
+    for (auto x : { "/.//b", "s:/a/..//b", ".//c", "/%2E//x", "./a:b", "x/../c:d/e", "s:/.//", "a/..//b/c", "//[v1.a]/p", "s://[v7.x:y]", "S://[v1.a]:1/%41" /* IPvFuture literals without a capital letter: nothing to fold, and still the URI's own copy afterwards */ }) corpus.push_back(x);
     if (!ctx.secondary) { std::vector<Str> sh = shape_list(ctx.quick() ? 0 : 1); corpus.insert(corpus.end(), sh.begin(), sh.end()); }
     for (size_t i = 0; i < corpus.size(); i++) { if (!ctx.mine(i)) continue; if (ctx.expired()) break; ra.run_text(corpus[i]); rw.run_text(corpus[i]); }
     ctx.st.count("evaluations", lc.cases + lc.ro_calls); ctx.st.count("cases", lc.cases); ctx.st.count("source_revocations", lc.revocations); ctx.st.count("read_only_argument_batches", lc.ro_calls); ctx.st.count("cases_where_the_operation_changed_content", lc.changed_by_op);
